@@ -109,8 +109,9 @@ func (t *tracer) call(cmd string, args ...string) {
 		}
 
 		qs, err := syntax.Quote(s, syntax.LangBash)
-		if err != nil { // should never happen
-			panic(err)
+		if err != nil {
+			// e.g. a null byte which came from "read"; print the arguments as they are
+			qs = s
 		}
 		t.stringf("%s %s", cmd, qs)
 	} else {
